@@ -1,6 +1,9 @@
 SPECIFICATION Spec
 CONSTANTS
   MaxSent = 1
+  MaxConn = 0
+  MiuClasses <- MC_NoClasses
+  RwVals <- MC_NoClasses
   Kinds <- MC_Quick
 INVARIANT SymmetricInv
 INVARIANT RangesInv
